@@ -177,7 +177,7 @@ func runC15(c *Ctx) {
 			vt, et := lb.Of(e.Results[0], e.Instr), lb.Of(e.Results[1], e.Instr)
 			if et.Is("nil") {
 				want := "call<(hash.Hash).Sum>(obj(" + hnew + ", " + prefix("0") + ", call<(hash.Hash).Write>(self, ext#0(" + mb + "))), nil)"
-				_, ok := ana.Match(want, vt)
+				_, ok := ana.MatchX(c.P, want, vt)
 				r.Check(ok && mustPass(leafFn, e.Instr.Block(), okGate), "C15.shape.leaf", c.ipos(e.Instr), "leaf = t.hash: Write([0x00]), Write(marshalled leaf), Sum(nil), only after MarshalBinary succeeded %s", ana.Explain(want, vt))
 			} else {
 				_, ok := ana.Match("ext#1("+mb+")", et)
@@ -194,7 +194,7 @@ func runC15(c *Ctx) {
 			}
 			vt := nb.Of(e.Results[0], e.Instr)
 			want := "call<(hash.Hash).Sum>(obj(" + hnew + ", " + prefix("1") + ", call<(hash.Hash).Write>(self, p1), call<(hash.Hash).Write>(self, p2)), nil)"
-			_, ok := ana.Match(want, vt)
+			_, ok := ana.MatchX(c.P, want, vt)
 			r.Check(ok, "C15.shape.node-hash", c.ipos(e.Instr), "node = t.hash: Write([0x01]), Write(left), Write(right), Sum(nil) %s", ana.Explain(want, vt))
 		}
 	}
